@@ -273,7 +273,8 @@ func runC09(r *Run) {
 	// corpus first
 	corpus := []string{"truex", "trueand false", "1or 2", "a.b", "a .+ b", "a.+b", "x?.y", "1.2.3", "0x0F", "0123", "1e5e6", "1.e3", "\"a\\u00e9\\n\"", "\"bad\\q\"",
 		"`raw\nline`", "'2020-01-01 00:00:00'", "a\n  b\r\n\tc", "né x", "x y", "　a", "a<=>b", "a<==b", "a=>>b", "x+++y", "x++++y", "isnt_", "is nt", "a::b", "[1:2]", "x := 1",
-		"0b102", "0o78", "0xg", "1.5e+", "1.5e+3.2", "1e05", "1.5e-03", "6.02E+023", "1e00", "1e007", "2e-0", "1e+00x", "1.0e010 + 1", "1e0", "1e10", "0e0", "1e01e02", "''", "``", "\"\"", "_", "é1", "١", "a?b:c", "a ? b : c", "c?-1:2", "[1,2][0]", "{a:1}.a", "f(x,y)", "ˆ", "aˆb"}
+		"0b102", "0o78", "0xg", "1.5e+", "1.5e+3.2", "1e05", "1.5e-03", "6.02E+023", "1e00", "1e007", "2e-0", "1e+00x", "1.0e010 + 1", "1e0", "1e10", "0e0", "1e01e02", "''", "``", "\"\"", "_", "é1", "١", "a?b:c", "a ? b : c", "c?-1:2", "[1,2][0]", "{a:1}.a", "f(x,y)", "ˆ", "aˆb",
+		"'a\nb' x", "'\n\n' + y\nz", "x '2020\n01' y", "'é\n' é 1", "`r\n`'t\n'\"s\n\" q", "'\r\n' a\n b"}
 	for _, c := range corpus {
 		for _, s := range sets {
 			c09One(r, s, c)
@@ -289,7 +290,7 @@ func runC09(r *Run) {
 	}
 	alphabets := [][]rune{
 		{'t', 'r', 'u', 'e', 'o', '1', '.', '<', '=', '!', ' ', '\n', '"', 'é'},
-		{'i', 's', 'n', 't', '.', '+', '=', '>', '<', '0', 'x', ' ', '\'', '_'},
+		{'i', 's', 'n', 't', '.', '+', '=', '>', '<', '0', 'x', ' ', '\'', '_', '\n'},
 		{'+', '!', '~', '>', 'i', 'n', 'ˆ', '1', 'e', '.', '-', ' ', '`', '\\', '0'},
 		{':', '=', 'a', '1', ' ', '?', '[', ']'},
 		{'<', '=', '>', '*', '&', 'a', 'n', 'd', ' ', '1'},
@@ -317,7 +318,7 @@ func runC09(r *Run) {
 		r.Notes = append(r.Notes, fmt.Sprintf("exhaustive: all strings of length <= %d over %q with operator set %s", depth, string(alpha), s.name))
 	}
 	// random longer strings built from lexical fragments (mostly valid) and raw noise (malformed stream)
-	frags := []string{"true", "false", "and", "or", "not", "x", "foo_1", "é", "1", "0", "12.5", "1e3", "0x1f", "0b10", "0o7", "\"s\"", "\"a\\nb\"", "`r`", "'2020-01-01'",
+	frags := []string{"true", "false", "and", "or", "not", "x", "foo_1", "é", "1", "0", "12.5", "1e3", "0x1f", "0b10", "0o7", "\"s\"", "\"a\\nb\"", "`r`", "'2020-01-01'", "'a\nb'", "`r\n\n`",
 		"+", "-", "*", "/", "%", "^", "<", "<=", ">", ">=", "==", "!=", "!", "&&", "||", "?", ":", ".", ",", "(", ")", "[", "]", "{", "}", " ", "  ", "\n", "\t",
 		"<=>", ".+", "=>>", "is", "isnt", "né", "+++", "++", "~>", "in", "ˆ", "\\", "@", "#", "$", "\"", "'", "`", "0x", "1.", ".5", "e5", "1e", " ", " "}
 	n := 4000
